@@ -738,6 +738,113 @@ def splice_index_lists(prog):
     return done
 
 
+# ---------------------------------------------------------------------------------------- P29 (zip / enumerate over the method's lists -> index loops)
+# lengths of the lists of a transcription method (position kinds); the layout rules (R01.8, R02.8, R07.7: check_len) verify them on
+# every run by interpretation, so this pass may rely on them
+LIST_LEN = {"self.X": "self.N+1", "self.Q": "self.N+1", "self.Z": "self.N+1", "self.t0_local": "self.N+1", "self.control_grid": "self.N+1",
+            "self.U": "self.N", "self.Z0": "self.N", "self.T_local": "self.N", "self.integrator_grid": "self.N",
+            "self.Xc": "self.N", "self.Zc": "self.N", "self.xr": "self.N", "self.zr": "self.N", "self.tr": "self.N"}
+LIST_LEN2 = {"self.Xc": "self.M", "self.Zc": "self.M", "self.xr": "self.M", "self.zr": "self.M", "self.tr": "self.M"}
+_ORDER = {"self.M": 0, "self.N": 1, "self.N+1": 2}
+
+
+def _seq_info(e, local_len):
+    """(base expression text, index offset, length text) of an iterable whose length is known, else None."""
+    off = 0
+    if isinstance(e, ast.Subscript) and isinstance(e.slice, ast.Slice) and e.slice.upper is None and e.slice.step is None and isinstance(e.slice.lower, ast.Constant) and e.slice.lower.value == 1:
+        inner = _seq_info(e.value, local_len)
+        if inner and inner[2] == "self.N+1" and inner[1] == 0:
+            return inner[0], 1, "self.N"
+        return None
+    t = ast.unparse(e)
+    if t in LIST_LEN:
+        return t, 0, LIST_LEN[t]
+    if isinstance(e, ast.Subscript) and not isinstance(e.slice, (ast.Slice, ast.Tuple)) and ast.unparse(e.value) in LIST_LEN2:
+        return t, 0, LIST_LEN2[ast.unparse(e.value)]
+    if isinstance(e, ast.Name) and e.id in local_len:
+        return e.id, 0, local_len[e.id]
+    return None
+
+
+class _SubstNames(ast.NodeTransformer):
+    def __init__(self, mapping):
+        self.mapping = mapping
+
+    def visit_Name(self, n):
+        if n.id in self.mapping and isinstance(n.ctx, ast.Load):
+            return copy.deepcopy(self.mapping[n.id])
+        return n
+
+
+def index_zip_loops(prog):
+    """P29: `for k, (x, u) in enumerate(zip(self.X, self.U))` -> `for k in range(self.N)` with x -> self.X[k], u -> self.U[k]
+    (likewise plain zip, enumerate of one list, a `[1:]` view, the second level `zip(self.Xc[k], self.Zc[k])`, and a local list
+    that received exactly one element per round of an earlier loop of known length)."""
+    done = []
+    for m in prog.modules.values():
+        for cls in m.classes.values():
+            for fi in cls.methods.values():
+                f = fi.node
+                local_len = {}
+                changed = True
+                rounds = 0
+                while changed and rounds < 10:
+                    changed = False
+                    rounds += 1
+                    # local lists filled once per round of a range(self.N) / range(self.M) loop
+                    for st in ast.walk(f):
+                        if isinstance(st, ast.For) and isinstance(st.iter, ast.Call) and isinstance(st.iter.func, ast.Name) and st.iter.func.id == "range" and len(st.iter.args) == 1 \
+                                and ast.unparse(st.iter.args[0]) in ("self.N", "self.M"):
+                            for b in st.body:
+                                if isinstance(b, ast.Expr) and isinstance(b.value, ast.Call) and isinstance(b.value.func, ast.Attribute) and b.value.func.attr == "append" and isinstance(b.value.func.value, ast.Name):
+                                    nm = b.value.func.value.id
+                                    apps = [x for x in ast.walk(f) if isinstance(x, ast.Call) and isinstance(x.func, ast.Attribute) and x.func.attr in ("append", "extend", "insert", "pop") and isinstance(x.func.value, ast.Name) and x.func.value.id == nm]
+                                    inits = [x for x in ast.walk(f) if isinstance(x, ast.Assign) and len(x.targets) == 1 and isinstance(x.targets[0], ast.Name) and x.targets[0].id == nm]
+                                    if len(apps) == 1 and len(inits) == 1 and isinstance(inits[0].value, ast.List) and not inits[0].value.elts:
+                                        local_len[nm] = ast.unparse(st.iter.args[0])
+                    for st in [x for x in ast.walk(f) if isinstance(x, ast.For)]:
+                        it, tgt = st.iter, st.target
+                        idx_name, elem_t = None, tgt
+                        if isinstance(it, ast.Call) and isinstance(it.func, ast.Name) and it.func.id == "enumerate" and len(it.args) == 1 and isinstance(tgt, ast.Tuple) and len(tgt.elts) == 2 and isinstance(tgt.elts[0], ast.Name):
+                            idx_name, elem_t, it = tgt.elts[0].id, tgt.elts[1], it.args[0]
+                        seqs = None
+                        if isinstance(it, ast.Call) and isinstance(it.func, ast.Name) and it.func.id == "zip" and it.args and not it.keywords and isinstance(elem_t, ast.Tuple) and len(elem_t.elts) == len(it.args):
+                            seqs = list(zip(elem_t.elts, it.args))
+                        elif idx_name is not None or _seq_info(it, local_len) is not None:
+                            if idx_name is None and not (isinstance(it, ast.Name) or ast.unparse(it) in LIST_LEN):
+                                pass
+                            if idx_name is not None:
+                                seqs = [(elem_t, it)]
+                        if not seqs or not all(isinstance(t_, ast.Name) for t_, _ in seqs):
+                            continue
+                        infos = [_seq_info(e_, local_len) for _, e_ in seqs]
+                        if any(i_ is None for i_ in infos):
+                            continue
+                        length = min((i_[2] for i_ in infos), key=lambda x: _ORDER[x])
+                        names = [t_.id for t_, _ in seqs]
+                        # the element names must not be rebound in the loop
+                        if any(isinstance(x, ast.Name) and x.id in names and isinstance(x.ctx, (ast.Store, ast.Del)) for b in st.body + st.orelse for x in ast.walk(b)):
+                            continue
+                        if idx_name is None:
+                            used = _all_names(f)
+                            idx_name = "i" if length == "self.M" else "k"
+                            while idx_name in used:
+                                idx_name += "_"
+                        mapping = {}
+                        for (t_, _), (base, off, _l) in zip(seqs, infos):
+                            idx = ast.Name(id=idx_name, ctx=ast.Load()) if off == 0 else ast.BinOp(left=ast.Name(id=idx_name, ctx=ast.Load()), op=ast.Add(), right=ast.Constant(value=off))
+                            mapping[t_.id] = ast.Subscript(value=ast.parse(base, mode="eval").body, slice=idx, ctx=ast.Load())
+                        sub = _SubstNames(mapping)
+                        st.body = [sub.visit(b) for b in st.body]
+                        st.orelse = [sub.visit(b) for b in st.orelse]
+                        st.target = ast.copy_location(ast.Name(id=idx_name, ctx=ast.Store()), st.target)
+                        st.iter = ast.copy_location(ast.parse("range(%s)" % length, mode="eval").body, st.iter)
+                        done.append("%s.%s: %s" % (cls.name, fi.name, ", ".join(names)))
+                        changed = True
+                        break
+    return done
+
+
 # ---------------------------------------------------------------------------------------- P23 (arguments of defaulted parameters by keyword)
 def keyword_defaults(prog):
     """P23: in calls of a repository class (constructor) or of a method / function whose name has one signature in the whole
@@ -1174,6 +1281,12 @@ def _aug_on_known_lists(tree):
 
 def canonicalise(prog):
     total = keyword_defaults(prog)
+    izl = index_zip_loops(prog)
+    if izl:
+        prog.normalisation.setdefault("zip_loops_indexed", []).extend(izl)
+        total += len(izl)
+        for m_ in prog.modules.values():
+            ast.fix_missing_locations(m_.tree)
     for m in prog.modules.values():
         c = _Canon()
         if os.environ.get("RKVERIF_P21", "0") == "1":   # experimental: re-nesting every guard clause changes too many baseline shapes; the rules read paths instead (ceval.run_path)
